@@ -959,7 +959,7 @@ def unroll_circuit_op_greedy_frontier(
                     )
                 )
             if tags_to_check is None or set(tags_to_check).intersection(op.tags):
-                unrolled_circuit.clear_operations_touching(op.qubits, [idx])
+                unrolled_circuit.batch_remove([(idx, op)])
                 frontier = unrolled_circuit.insert_at_frontier(
                     op_untagged.mapped_circuit().all_operations(), idx, frontier
                 )
